@@ -479,5 +479,32 @@ def r17_8(ctx):
              tl.loc(calls[0]) if calls else tl.loc()) if missing or not calls else ctx.ok(construct, tl.loc(calls[0])))
 
 
+def r17_9(ctx):
+    """R17.9 the displayed rows follow every change: (a) MenuConfigState._set_val() re-lists the menu after every successful
+    set_value(), whatever the changed item is connected to (comments and menus depend on options without appearing in
+    `_dependents`); (b) after a load the application switches show-all on exactly when the highlighted row is no longer
+    among the rows shown for the current menu - the premise under which `_update_menu()` may call .index() unguarded."""
+    repo = ctx.repo
+    f = repo.func(f"{MODEL}:MenuConfigState._set_val")
+    ctx.analysed(f.qual)
+    fl = Flow(f.node, resolver=Resolver(f.node)).run()
+    ups = [n for n in ast.walk(f.node) if isinstance(n, ast.Call) and ast.unparse(n.func) == "self._update_menu"]
+    construct = "MenuConfigState._set_val/the menu is re-listed after every applied change"
+    if not ups:
+        ctx.bad(construct, "_update_menu() is no longer called", f.loc())
+    else:
+        extra = sorted(k for k, pol in (fl.guards_at(ups[0]) or set()) if "_dependents" in k or "referenced" in k)
+        (ctx.bad(construct, f"re-listing depends on {extra}: a comment or menu that depends on the changed option stays in (or out of) the displayed list",
+                 f.loc(ups[0])) if extra else ctx.ok(construct, f.loc(ups[0])))
+    h = repo.func(f"{APP}:MenuConfigApp._handle_load_result")
+    ctx.analysed(h.qual)
+    construct = "MenuConfigApp._handle_load_result/show-all fallback when the highlighted row vanished"
+    tests = [n for n in ast.walk(h.node) if isinstance(n, ast.If) and any(isinstance(c, ast.Compare) and len(c.ops) == 1 and isinstance(c.ops[0], ast.NotIn)
+             and "selected_node" in ast.unparse(c.left) and "shown_nodes(" in ast.unparse(c.comparators[0]) for c in ast.walk(n.test))]
+    ok = bool(tests) and any(isinstance(a, ast.Assign) and ast.unparse(a.targets[0]).endswith(".show_all") and ast.unparse(a.value) == "True" for a in ast.walk(tests[0]))
+    (ctx.ok(construct, h.loc(tests[0])) if ok else
+     ctx.bad(construct, "the membership test of the highlighted row is gone: a load that hides that row (while siblings stay visible) makes _update_menu() raise ValueError",
+             h.loc()))
+
 def rules():
-    return [("R17.8", r17_8, 6), ("R17.7", r17_7, 5), ("R17.1", r17_1, 6), ("R17.5", r17_5, 4), ("R17.2", r17_2, 13), ("R17.3", r17_3, 4), ("R17.4", r17_4, 6), ("R17.6", r17_6, 3)]
+    return [("R17.9", r17_9, 2), ("R17.8", r17_8, 6), ("R17.7", r17_7, 5), ("R17.1", r17_1, 6), ("R17.5", r17_5, 4), ("R17.2", r17_2, 13), ("R17.3", r17_3, 4), ("R17.4", r17_4, 6), ("R17.6", r17_6, 3)]
